@@ -26,16 +26,19 @@
            not apply here.  A finite map instead of a list only for speed (2^16 scattered writes).
      ptB : B[i] = mzd_read_bits(T, i, startcol, MIN(64, ncols - startcol)) of the FIXED row i
            (mzd_xor_bits(T, i, c, k, ord[i])), B[0] = 0; the entries from 2^k on keep their old contents.
-   The code book (ord, inc) of m4ri_codebook[k] is [build_code_fast k], proven equal to the model
-   [build_code k] of m4ri_build_code for every k (GrayProofs.build_code_fast_eq).
+   The code book (ord, inc) of m4ri_codebook[k] is [codebook k], the closed form [build_code_fast k] of
+   Alg/Gray.v computed over a list of N instead of nat (linear instead of quadratic in 2^k); it is equal
+   to the model [build_code k] of m4ri_build_code for every k (GrayProofs.build_code_fast_eq,
+   TrtriRussianProofs.codebook_eq).
    U[i] (k x ncols, from mzd_init) is rewritten completely by mzd_submatrix on its first k rows; in the
    tail loop, where k may shrink, the rows from the new k on are stale but rowneeded < k never reaches them:
    the model builds U afresh with k rows.
 
    PARAMETERS.  k >= 1: the automatic choice for k = 0 (:395-399, m4ri_opt_k and a floating point
    comparison with the L3 size; values 1..7) stays outside.  The C code needs 4k <= 64: mzd_read_bits
-   reads at most 64 bits, and B holds at most 64 bits of a table row; the model truncates B in the same
-   way, so the theorems are stated for 1 <= k <= 16 (= 4k <= m4ri_radix).
+   reads at most 64 bits (a larger count is a shift by a negative amount: undefined behaviour), and B
+   holds at most 64 bits of a table row; the model truncates B in the same way, so the theorems are
+   stated for 1 <= k <= 16 (= 4k <= m4ri_radix) — or nrows < 4k, where the main loop never runs.
    Fuel = number of rows (r grows by at least one per pass); with k >= 1 it never runs out; out of fuel
    the loops stop where they are (as Alg/TRSMRec.v does). *)
 From Coq Require Import List NArith PArith Arith Bool FMapPositive.
@@ -68,6 +71,13 @@ Definition e_get (E : PositiveMap.t nat) (s : N) : nat :=
 (** ple_table_init (ple_russian.c:39-46): T from mzd_init (zero), E and B from malloc *)
 Definition fresh_table (k : nat) : ptable :=
   mkpt (repeat 0%N (2 ^ k)) (PositiveMap.empty nat) (repeat 0%N (2 ^ k)).
+
+(** m4ri_codebook[k] (graycode.c), see the header *)
+Fixpoint nseq (n : nat) (a : N) : list N :=
+  match n with 0 => [] | S n' => a :: nseq n' (N.succ a) end.
+Definition codebook (k : nat) : list N * list nat :=
+  let ns := nseq (2 ^ k) 0%N in
+  (map (fun n => N.lxor n (N.shiftr n 1)) ns, map (fun n => Nat.min (tz (N.succ n)) (k - 1)) ns).
 
 (** the columns of word b *)
 Definition word_cols (b : nat) : N := colmask (radix * b) (radix * S b).
@@ -104,7 +114,7 @@ Fixpoint mtt_bits (startcol toread n : nat) (ts bs : list N) : list N :=
   end.
 
 Definition make_table_trtri (U : mat) (c k : nat) (tb : ptable) (startcol : nat) : ptable :=
-  let '(ord, inc) := build_code_fast k in
+  let '(ord, inc) := codebook k in
   let region := colmask (radix * (c / radix)) (radix * mwidth (nc U)) in
   let T1 := match ptT tb with
             | [] => []
@@ -204,3 +214,17 @@ Definition trtri_upper_russian_from (tabs0 : list ptable) (k : nat) (A : mat) : 
 
 Definition trtri_upper_russian (k : nat) (A : mat) : mat :=
   trtri_upper_russian_from (repeat (fresh_table k) ntables) k A.
+
+(** * mzd_trtri_upper (triangular.c:518-546, model [trtri_rec] of Alg/TRSM.v) over this base routine:
+    [trtri_upper_rec_r] with the substitution solvers of Alg/TRSM.v (as [trtri_upper_rec]),
+    [trtri_upper_rec_fr] with the faithful solvers of Alg/TRSMRec.v (as [trtri_upper_rec_f]: dot-product
+    base case, Four-Russians middle regime with parameter kk); kt = the k handed to
+    mzd_trtri_upper_russian (the C code passes 0 = automatic choice, a value in 1..7) *)
+From M4 Require Alg.TRSM Alg.TRSMRec.
+
+Definition trtri_upper_rec_r (c : TRSM.cfg) (kt : nat) (U : mat) : option mat :=
+  TRSM.trtri_rec (trtri_upper_russian kt) (TRSM.trsm_upper_left_rec c 0) (TRSM.trsm_upper_right_rec c 0) c (nr U) U.
+
+Definition trtri_upper_rec_fr (c : TRSM.cfg) (kt kk : nat) (U : mat) : option mat :=
+  TRSM.trtri_rec (trtri_upper_russian kt) (TRSMRec.trsm_upper_left_rec_f c kk 0)
+                 (TRSMRec.trsm_upper_right_rec_f c 0) c (nr U) U.
